@@ -1096,7 +1096,7 @@ Proof.
   assert (O4 : attrs_ok d3) by (apply attr_del_ok; exact O3).
   exists (attr_set d3 k_to from). split; [reflexivity|]. split; [apply attr_set_ok; exact O4|].
   assert (X : xmlns_key = xmlns_name) by apply Gen_stanza_ok.
-  repeat split.
+  refine (conj _ (conj _ (conj _ _))).
   - rewrite attr_get_set by exact O4. rewrite beq_refl. reflexivity.
   - rewrite attr_get_set by exact O4. replace (beq k_from k_to) with false by reflexivity.
     subst d3. rewrite attr_get_del by exact O3. rewrite X. replace (beq k_from xmlns_name) with false by reflexivity.
@@ -1154,7 +1154,7 @@ Proof.
   split; [destruct text; reflexivity|].
   destruct (attr_get a k_to) as [to|] eqn:T.
   - assert (O2 : attrs_ok (attr_set a1 k_from to)) by (apply attr_set_ok; exact O1).
-    split; [exact O2|]. repeat split; try apply only_attr_set.
+    split; [exact O2|]. refine (conj _ (conj _ (conj _ (conj _ (conj _ (conj (only_attr_set _ _) (conj (only_attr_set _ _) (only_attr_set _ _)))))))).
     + rewrite attr_get_set by exact O1. replace (beq k_type k_from) with false by reflexivity.
       subst a1. rewrite attr_get_set by exact O0. rewrite beq_refl. reflexivity.
     + rewrite attr_get_set by exact O1. replace (beq k_to k_from) with false by reflexivity.
@@ -1167,7 +1167,7 @@ Proof.
       pose proof N2 as N2'. apply beq_false_iff in N2'. rewrite N2'.
       subst a1. rewrite attr_get_set by exact O0.
       pose proof N4 as N4'. apply beq_false_iff in N4'. rewrite N4'. apply G4; assumption.
-  - split; [exact O1|]. repeat split; try apply only_attr_set.
+  - split; [exact O1|]. refine (conj _ (conj _ (conj _ (conj _ (conj _ (conj (only_attr_set _ _) (conj (only_attr_set _ _) (only_attr_set _ _)))))))).
     + subst a1. rewrite attr_get_set by exact O0. rewrite beq_refl. reflexivity.
     + subst a1. rewrite attr_get_set by exact O0. replace (beq k_to k_type) with false by reflexivity. exact G1.
     + subst a1. rewrite attr_get_set by exact O0. replace (beq k_from k_type) with false by reflexivity. exact G2.
@@ -1192,6 +1192,6 @@ Proof.
   intros ty text.
   destruct Gen_stanza_ok as (_ & _ & _ & _ & _ & _ & _ & _ & _ & _ & _ & E1 & E2 & E3 & E4 & E5).
   exists (attr_set None xmlns_key rfc_ns_streams), (attr_set None xmlns_key rfc_ns_streams).
-  split; [|repeat split; try apply only_attr_set; exact E5].
+  split; [|exact (conj (only_attr_set _ _) (conj (only_attr_set _ _) E5))].
   unfold error_new. rewrite E1, E2, E3, E4. destruct text; reflexivity.
 Qed.
